@@ -7,14 +7,53 @@
  * state, entropy pinned per endpoint, virtual clock), against the recorded peer stream under many
  * partitions of the input into receive calls and many partial-send patterns; a byte is never
  * delivered earlier, relative to the endpoint's own output, than in the recording.  The normalised
- * trace (event sequence, delivered plaintext, emitted bytes) must equal the reference trace. */
-#include "mx.h"
+ * trace (event sequence, delivered plaintext, emitted bytes) must equal the reference trace.
+ *
+ * MatrixSSL peers never emit TLS 1.3 compatibility ChangeCipherSpec records, HelloRequest or a
+ * renegotiation ClientHello, so the recording run also plays the part of a conforming non-MatrixSSL
+ * peer / middlebox ("augmented" scenarios): while a flight is moved from the sender to the receiver,
+ * records such a peer may legally send are spliced into the stream
+ *   - TLS 1.3: 1 or 2 change_cipher_spec records (14 03 03 00 01 01) at every record boundary
+ *     between the first ClientHello / ServerHello / HelloRetryRequest and the sender's Finished;
+ *   - TLS 1.3: [CCS x n][alert] in place of the sender's protected flight, the alert in plaintext or
+ *     sealed under the sender's handshake traffic key, warning close_notify or fatal;
+ *   - TLS <= 1.2: an authentic HelloRequest (server) or renegotiation ClientHello (client), sealed
+ *     with the sender's current write state by mx_seal_as() before / between / after its
+ *     application data records (the sender's own alone re-runs seal the same records at the same
+ *     points, so their sequence numbers advance exactly as in the recording).
+ * The recording run and every alone re-run see the same augmented stream; the oracle is unchanged. */
+#include "mx_surgeon.h"
 #include <sys/mman.h>
+#include <limits.h>
 
-typedef struct { const char *name; int ver; uint16_t suite; int clientAuth, resumed, ticket, bad; } scn_t;
 enum { BAD_NONE = 0, BAD_CA, BAD_NAME };
-static scn_t scns[80]; static int nscn;
-static void add(const char *n, int v, uint16_t s, int ca, int res, int tk, int bad) { scns[nscn++] = (scn_t) { n, v, s, ca, res, tk, bad }; }
+enum { AUG_NONE = 0, AUG_CCS_ALL, AUG_CCS_TYP, AUG_CCS_ONE, AUG_ABORT, AUG_HREQ, AUG_RENEG };
+typedef struct {
+    char name[72]; int ver; uint16_t suite; int clientAuth, resumed, ticket, bad;
+    int hrr, early;       /* TLS 1.3 flavours: HelloRetryRequest (client's first share is for a group the server lacks), accepted 0-RTT data */
+    int light;            /* small application payloads: the scenario is about the handshake / the spliced records */
+    int aug, n;           /* augmentation kind; number of CCS records per position */
+    int dir, ord;         /* AUG_CCS_ONE: direction (0 = client->server) and ordinal of the legal position; AUG_ABORT: direction of the alert */
+    int prot, lvl, desc;  /* AUG_ABORT: sealed under the handshake traffic key or plaintext; alert level / description */
+    int athello;          /* AUG_ABORT: replace the first record after the first one whatever its type (ServerHello after HelloRetryRequest) */
+    int slots;            /* AUG_HREQ / AUG_RENEG: bit i = before the sender's application record i, bit 3 = after the last */
+    int roles;            /* roles to re-run alone: bit MX_CLIENT / bit MX_SERVER */
+} scn_t;
+static scn_t scns[400]; static int nscn;
+static scn_t *add(const char *n, int v, uint16_t s, int ca, int res, int tk, int bad)
+{
+    scn_t *x = &scns[nscn++]; memset(x, 0, sizeof *x); snprintf(x->name, sizeof x->name, "%s", n);
+    x->ver = v; x->suite = s; x->clientAuth = ca; x->resumed = res; x->ticket = tk; x->bad = bad; x->roles = 3;
+    return x;
+}
+static scn_t *derive(const scn_t *base, const char *fmt, ...)
+{
+    scn_t *x = &scns[nscn++]; *x = *base; x->light = 1; char suf[48]; va_list ap; va_start(ap, fmt); vsnprintf(suf, sizeof suf, fmt, ap); va_end(ap);
+    snprintf(x->name, sizeof x->name, "%s+%s", base->name, suf);
+    return x;
+}
+#define MAXORD_C 5
+#define MAXORD_S 7
 static void build_scenarios(void)
 {
     add("rsa-cbc", MX_TLS11, 0x002f, 0, 0, 0, 0);
@@ -30,36 +69,111 @@ static void build_scenarios(void)
     add("untrusted-ca", MX_TLS13, 0x1301, 0, 0, 0, BAD_CA);
     add("wrong-name", MX_TLS12, 0x003c, 0, 0, 0, BAD_NAME);
     if (vf_thorough) for (int v = MX_TLS11; v <= MX_TLS13; v++) for (int i = 0; i < MX_NSUITES; i++) if (mx_suite_ok_for(&mx_suites[i], v)) add(mx_suites[i].name, v, mx_suites[i].id, (i % 3) == 1 && mx_suites[i].auth != MX_AUTH_PSK, (i % 4) == 2, 0, 0);
+
+    /* ---- TLS 1.3 flavours MatrixSSL produces itself but the list above lacked ---- */
+    scn_t t13[5]; int n13 = 0;
+    { scn_t *x = add("aes128gcm-hrr", MX_TLS13, 0x1301, 0, 0, 0, 0); x->hrr = 1; x->light = 1; t13[n13++] = *x; }
+    { scn_t *x = add("aes128gcm-early", MX_TLS13, 0x1301, 0, 1, 0, 0); x->early = 1; x->light = 1; t13[n13++] = *x; }
+    { scn_t b; memset(&b, 0, sizeof b); b.ver = MX_TLS13; b.roles = 3;
+      snprintf(b.name, sizeof b.name, "aes128gcm"); b.suite = 0x1301; t13[n13++] = b;
+      snprintf(b.name, sizeof b.name, "chacha-clientauth"); b.suite = 0x1303; b.clientAuth = 1; t13[n13++] = b;
+      snprintf(b.name, sizeof b.name, "aes256gcm-resumed"); b.suite = 0x1302; b.clientAuth = 0; b.resumed = 1; t13[n13++] = b; }
+
+    /* ---- compatibility CCS at the legal positions (RFC 8446 section 5 and appendix D.4) ---- */
+    for (int i = 0; i < n13; i++) {
+        const scn_t *b = &t13[i]; scn_t *x;
+        x = derive(b, "ccs1-everywhere"); x->aug = AUG_CCS_ALL; x->n = 1;
+        x = derive(b, "ccs2-everywhere"); x->aug = AUG_CCS_ALL; x->n = 2;
+        x = derive(b, "ccs1-typical"); x->aug = AUG_CCS_TYP; x->n = 1;
+        int singles = vf_thorough || i == 0 || i == 1 || i == 3;   /* quick: HelloRetryRequest, early data, client authentication */
+        if (singles) for (int d = 0; d < 2; d++) for (int o = 0; o < (d ? MAXORD_S : MAXORD_C); o++) for (int n = 1; n <= (vf_thorough ? 2 : 1); n++) {
+            x = derive(b, "ccs%d@%s%d", n, d ? "s" : "c", o); x->aug = AUG_CCS_ONE; x->n = n; x->dir = d; x->ord = o; x->roles = 1 << (d == 0 ? MX_SERVER : MX_CLIENT);
+        }
+    }
+    /* ---- [CCS x n][alert] instead of the sender's protected flight ---- */
+    for (int d = 0; d < 2; d++) for (int prot = 0; prot < 2; prot++) for (int a = 0; a < 2; a++) for (int n = 1; n <= 2; n++) {
+        if (n == 2 && !vf_thorough && !(a == 1 && prot == d)) continue;
+        scn_t *x = derive(&t13[2], "ccs%d+%s-%s@%s", n, prot ? "protected" : "plaintext", a ? "fatal40" : "close-notify", d ? "s" : "c");
+        x->aug = AUG_ABORT; x->n = n; x->dir = d; x->prot = prot; x->lvl = a ? 2 : 1; x->desc = a ? 40 : 0; x->roles = 1 << (d == 0 ? MX_SERVER : MX_CLIENT);
+    }
+    for (int a = 0; a < 2; a++) {   /* the server refuses the second ClientHello: HelloRetryRequest, CCS, plaintext alert */
+        scn_t *x = derive(&t13[0], "ccs1+plaintext-%s@s-after-hrr", a ? "fatal40" : "close-notify");
+        x->aug = AUG_ABORT; x->n = 1; x->dir = 1; x->prot = 0; x->lvl = a ? 2 : 1; x->desc = a ? 40 : 0; x->athello = 1; x->roles = 1 << MX_CLIENT;
+    }
+    /* ---- TLS <= 1.2: authentic HelloRequest / renegotiation ClientHello around the application data ---- */
+    scn_t l12[4]; int n12 = 0;
+    { scn_t b; memset(&b, 0, sizeof b); b.roles = 3;
+      b.ver = MX_TLS12; b.suite = 0x00ae; snprintf(b.name, sizeof b.name, "psk-cbc256"); l12[n12++] = b;
+      b.ver = MX_TLS12; b.suite = 0x009c; snprintf(b.name, sizeof b.name, "rsa-gcm"); l12[n12++] = b;
+      b.ver = MX_TLS11; b.suite = 0x002f; snprintf(b.name, sizeof b.name, "rsa-cbc"); l12[n12++] = b;
+      b.ver = MX_TLS12; b.suite = 0x003c; b.resumed = 1; snprintf(b.name, sizeof b.name, "rsa-cbc-resumed"); l12[n12++] = b; }
+    static const int slots_q[] = { 1, 2, 8, 15 }, slots_t[] = { 1, 2, 4, 8, 3, 6, 15 };
+    for (int i = 0; i < n12; i++) for (int k = 0; k < (vf_thorough ? 7 : 4); k++) {
+        int sl = vf_thorough ? slots_t[k] : slots_q[k];
+        if (!vf_thorough && i >= 2 && sl != 2 && sl != 15) continue;
+        scn_t *x = derive(&l12[i], "hello-request@%x", sl); x->aug = AUG_HREQ; x->slots = sl;
+        if (i < 2 && (sl == 2 || sl == 15 || vf_thorough)) { x = derive(&l12[i], "reneg-client-hello@%x", sl); x->aug = AUG_RENEG; x->slots = sl; }
+    }
+}
+static const char *aug_class(const scn_t *s)
+{
+    switch (s->aug) { case AUG_CCS_ALL: case AUG_CCS_TYP: case AUG_CCS_ONE: return "compat-ccs"; case AUG_ABORT: return s->prot ? "ccs+protected-alert" : "ccs+plaintext-alert";
+                      case AUG_HREQ: return "hello-request"; case AUG_RENEG: return "reneg-client-hello"; default: return NULL; }
 }
 
 /* ---- endpoint driver with a fixed application policy ---- */
 #define MAXEV 64
+#define STREAMCAP 120000
 typedef struct {
-    unsigned char out[120000]; int outlen;          /* everything the endpoint emitted */
-    unsigned char got[120000]; int gotlen;          /* delivered plaintext */
+    unsigned char out[STREAMCAP]; int outlen;       /* everything the endpoint emitted */
+    unsigned char got[STREAMCAP]; int gotlen;       /* delivered plaintext */
     char ev[MAXEV][24]; int nev;
     int stuck, fed;
     int told, untold_at_quiescence; /* completion made known through a return code (HANDSHAKE_COMPLETE or APP_DATA) / not known although complete when the endpoint went idle */
     int hsc_send, hsc_recv; /* how many times matrixSslSentData / the receive path returned MATRIXSSL_HANDSHAKE_COMPLETE */
     int reqclose_on_send;   /* send-side outcome: kept as a flag because its position relative to receive-side events is decided by the caller's own call order */
 } trace_t;
+typedef struct { int off, len; unsigned char b[1200]; } splice_t;   /* a record the key-holding peer puts in front of raw output offset `off` */
 typedef struct {
     mx_ep e; trace_t *t; int role; int sentApp, sentClose; int expectPeerApp;
+    const scn_t *s;
+    int hs_end;       /* raw output offset at which this endpoint's handshake output ended (INT_MAX until known) */
+    splice_t sp[6]; int nsp, spdone;
     int partial;      /* partial-send pattern: 0 = all at once, 1 = one byte at a time, 2 = n-1 then rest, 3 = seeded */
     vf_rng rng;
 } drv_t;
-static const int app_len[2][3] = { { 1, 700, 16384 }, { 33, 16384, 5000 } };   /* payloads each role submits on completion */
-static int app_total(int role) { return app_len[role][0] + app_len[role][1] + app_len[role][2]; }
+static const int app_len_heavy[2][3] = { { 1, 700, 16384 }, { 33, 16384, 5000 } };   /* payloads each role submits on completion */
+static const int app_len_light[2][3] = { { 1, 700, 300 }, { 33, 900, 200 } };
+static const int early_len[2] = { 100, 50 };
+static int app_len(const scn_t *s, int role, int i) { return s->light ? app_len_light[role][i] : app_len_heavy[role][i]; }
+static int app_total(const scn_t *s, int role) { return app_len(s, role, 0) + app_len(s, role, 1) + app_len(s, role, 2) + (s->early && role == MX_CLIENT ? early_len[0] + early_len[1] : 0); }
 
 static void ev(trace_t *t, const char *fmt, ...) { if (t->nev < MAXEV) { va_list ap; va_start(ap, fmt); vsnprintf(t->ev[t->nev++], 24, fmt, ap); va_end(ap); } }
 static void drv_policy(drv_t *d);
 static void on_app(mx_ep *e, const unsigned char *pt, uint32 len) { drv_t *d = e->user; d->t->told = 1; if (d->t->gotlen + (int) len < (int) sizeof d->t->got) { memcpy(d->t->got + d->t->gotlen, pt, len); d->t->gotlen += len; } drv_policy(d); }
+/* the key-holding peer: an authentic HelloRequest / renegotiation ClientHello in front of the sender's next record */
+static void drv_splice(drv_t *d, int slot)
+{
+    const scn_t *s = d->s; mx_ep *e = &d->e;
+    if (!(s->slots & (1 << slot)) || d->nsp >= 6) return;
+    unsigned char body[1100]; int bl = 0;
+    if (s->aug == AUG_HREQ && d->role == MX_SERVER) { memset(body, 0, 4); bl = 4; }
+    else if (s->aug == AUG_RENEG && d->role == MX_CLIENT) {   /* the client's own first ClientHello message serves as the renegotiation ClientHello */
+        mx_rec r; if (!mx_rec_at(d->t->out, d->t->outlen, 0, 0, &r) || r.type != 22 || r.len > (int) sizeof body) { ev(d->t, "SPLICEFAIL"); return; }
+        memcpy(body, d->t->out + 5, r.len); bl = r.len;
+    } else return;
+    splice_t *p = &d->sp[d->nsp];
+    int n = mx_seal_as(e, 22, body, bl, p->b);
+    if (n <= 0 || n > (int) sizeof p->b) { ev(d->t, "SPLICEFAIL"); return; }
+    p->len = n; p->off = d->t->outlen + e->ssl->outlen; d->nsp++;
+}
 static void drv_policy(drv_t *d)
 {
     mx_ep *e = &d->e;
     if (!d->sentApp && matrixSslHandshakeIsComplete(e->ssl) && !e->dead) {
-        d->sentApp = 1; ev(d->t, "COMPLETE");
-        for (int i = 0; i < 3; i++) { static unsigned char p[16400]; mx_payload(p, app_len[d->role][i], 0x0c18, d->role, i); int rc = mx_send(e, p, app_len[d->role][i]); if (rc <= 0) ev(d->t, "ENCFAIL%d", rc); }
+        d->sentApp = 1; d->hs_end = d->t->outlen + e->ssl->outlen; ev(d->t, "COMPLETE");
+        for (int i = 0; i < 3; i++) { static unsigned char p[16400]; int l = app_len(d->s, d->role, i); drv_splice(d, i); mx_payload(p, l, 0x0c18, d->role, i); int rc = mx_send(e, p, l); if (rc <= 0) ev(d->t, "ENCFAIL%d", rc); }
+        drv_splice(d, 3);
     }
     if (d->sentApp && !d->sentClose && d->t->gotlen >= d->expectPeerApp && !e->dead) {
         d->sentClose = 1; int ol0 = e->ssl->outlen; MX_ENTER(); int crc = matrixSslEncodeClosureAlert(e->ssl); MX_LEAVE(); ev(d->t, "CLOSING"); if (crc < 0) ev(d->t, "CLOSEFAIL%d", crc);
@@ -108,68 +222,140 @@ static int drv_open(drv_t *d, const scn_t *s, int role, sslSessionId_t *sid, tra
 {
     mx_cfg c = { .ver = s->ver, .suite = s->suite, .clientAuth = s->clientAuth, .useTicket = s->ticket, .noCallback = 1 };
     if (s->clientAuth) c.strictCb = 1;
+    if (s->early) c.earlyData = 16384;
     if (s->bad == BAD_CA) c.ckeys = mx_keys.srv_psk;     /* a key set without any CA */
     if (s->bad == BAD_NAME) c.expectedName = "wrong.example"; else if (mx_suite_by_id(s->suite)->auth != MX_AUTH_PSK && s->bad != BAD_CA) c.expectedName = "localhost";
-    memset(d, 0, sizeof *d); d->t = t; d->role = role; memset(t, 0, sizeof *t);
-    int rc = role == MX_SERVER ? mx_new_server(&d->e, &c) : mx_new_client(&d->e, &c, sid);
-    d->e.user = d; d->e.on_app = on_app; d->expectPeerApp = app_total(!role);
+    memset(d, 0, sizeof *d); d->t = t; d->role = role; d->s = s; d->hs_end = INT_MAX; memset(t, 0, sizeof *t);
+    int rc;
+    if (s->hrr) {   /* as mx_new_server / mx_new_client, plus key-exchange groups: the client's only share is for x25519, the server has secp256r1 alone */
+        sslSessOpts_t o; mx_opts(&o, &c, role); mx_ep *e = &d->e; uint16_t gs[1] = { 23 }, gc[2] = { 29, 23 };
+        if ((role == MX_SERVER ? matrixSslSessOptsSetKeyExGroups(&o, gs, 1, 1) : matrixSslSessOptsSetKeyExGroups(&o, gc, 2, 1)) < 0) return -1;
+        memset(e, 0, sizeof *e); e->role = role; e->ver = c.ver; e->id = role == MX_SERVER ? 1 : 0; e->name = role == MX_SERVER ? "S" : "C"; mx_actor = e->id;
+        psCipher16_t cs[1] = { c.suite }; e->sid = sid; MX_ENTER();
+        rc = role == MX_SERVER ? matrixSslNewServerSession(&e->ssl, mx_pick_skeys(&c), NULL, &o)
+                               : matrixSslNewClientSession(&e->ssl, mx_pick_ckeys(&c), sid, cs, 1, NULL, c.expectedName, NULL, NULL, &o);
+        MX_LEAVE(); e->wantTake = 1; if (rc > 0) rc = 0;
+    } else rc = role == MX_SERVER ? mx_new_server(&d->e, &c) : mx_new_client(&d->e, &c, sid);
+    d->e.user = d; d->e.on_app = on_app; d->expectPeerApp = app_total(s, !role);
+    if (rc >= 0 && s->early && role == MX_CLIENT) {   /* 0-RTT: two early records right behind the ClientHello */
+        if (matrixSslGetMaxEarlyData(d->e.ssl) <= 0) return -9;
+        for (int i = 0; i < 2; i++) { unsigned char p[128]; mx_payload(p, early_len[i], 0x0c18, role, 10 + i); if (mx_send(&d->e, p, early_len[i]) <= 0) return -8; }
+    }
     return rc;
+}
+static void prime(const scn_t *s, sslSessionId_t *sid)
+{   /* priming connection inside this child: identical in every child because entropy is pinned */
+    mx_cfg c = { .ver = s->ver, .suite = s->suite, .useTicket = s->ticket, .earlyData = s->early ? 16384 : 0 }; mx_conn k;
+    if (mx_conn_open(&k, &c, sid) == 0) { mx_conn_run(&k, NULL, NULL, 300); } mx_conn_close(&k);
 }
 
 /* ---- shared area for child -> parent results ---- */
+typedef struct { int a, b; } grp_t;
 typedef struct {
     int ok; int len[2];                       /* stream lengths: [0] client->server */
-    unsigned char stream[2][120000]; int need[2][120000];
+    unsigned char stream[2][STREAMCAP]; int need[2][STREAMCAP];   /* what each receiver is fed (augmented), and the causality bound of every byte */
+    int nins[2]; grp_t ins[2][48];            /* spliced byte ranges of each stream (adjacent splices merged) */
+    int npos[2], nccs[2], applied;            /* legal CCS positions met per direction, CCS records spliced, anything spliced at all */
+    int muted[2];                             /* the sender of direction d aborted with an alert: its later output never reaches the wire */
     trace_t ref[2];                           /* traces of both endpoints in the recording run */
     trace_t alone;                            /* trace of an alone run */
     int established;
 } shared_t;
 static shared_t *SH;
 
+static void st_put(int d, const unsigned char *b, int n, int needv, int spliced)
+{
+    if (n <= 0 || SH->len[d] + n >= STREAMCAP) return;
+    int a = SH->len[d];
+    memcpy(SH->stream[d] + a, b, n); for (int i = 0; i < n; i++) SH->need[d][a + i] = needv; SH->len[d] += n;
+    if (spliced) {
+        SH->applied++;
+        if (SH->nins[d] && SH->ins[d][SH->nins[d] - 1].b == a) SH->ins[d][SH->nins[d] - 1].b = a + n;
+        else if (SH->nins[d] < 48) SH->ins[d][SH->nins[d]++] = (grp_t) { a, a + n };
+    }
+}
+static const unsigned char CCS[6] = { 0x14, 3, 3, 0, 1, 1 };
+/* a legal position for compatibility CCS records in direction d, in front of record k (k < 0: behind the only record of the flight) */
+static void ccs_position(const scn_t *s, int d, int k, int needv)
+{
+    int o = SH->npos[d]++, put = 0;
+    if (s->aug == AUG_CCS_ALL) put = 1;
+    else if (s->aug == AUG_CCS_ONE) put = d == s->dir && o == s->ord;
+    else if (s->aug == AUG_CCS_TYP) put = d == 0 ? k == 1 : o == 0;   /* client: in front of its second flight / second ClientHello / early data; server: behind ServerHello or HelloRetryRequest */
+    if (put) for (int i = 0; i < s->n; i++) { st_put(d, CCS, 6, needv, 1); SH->nccs[d]++; }
+}
+/* move the sender's new output into the receiver's stream, playing the conforming foreign peer / middlebox on the way, and deliver it */
+static void link_move(const scn_t *s, int d, drv_t *snd, drv_t *rcv, int *pos, int *rix)
+{
+    trace_t *ts = snd->t; int needv = rcv->t->outlen, from = SH->len[d], p = *pos;
+    if (SH->muted[d] || SH->muted[!d]) { *pos = ts->outlen; return; }
+    while (p < ts->outlen) {
+        while (snd->spdone < snd->nsp && snd->sp[snd->spdone].off <= p) { st_put(d, snd->sp[snd->spdone].b, snd->sp[snd->spdone].len, needv, 1); snd->spdone++; }
+        mx_rec r; if (!mx_rec_at(ts->out, ts->outlen, p, 0, &r)) { st_put(d, ts->out + p, ts->outlen - p, needv, 0); p = ts->outlen; break; }
+        int k = (*rix)++;
+        if (s->ver == MX_TLS13) {
+            if (s->aug == AUG_ABORT && d == s->dir && k >= 1 && (r.type == 23 || s->athello)) {
+                unsigned char al[64]; int an;
+                for (int i = 0; i < s->n; i++) { st_put(d, CCS, 6, needv, 1); SH->nccs[d]++; }
+                if (s->prot) { unsigned char inner[3] = { (unsigned char) s->lvl, (unsigned char) s->desc, 21 }; sslSec_t *sc = &snd->e.ssl->sec; an = mx13_seal(snd->e.ssl->cipher->ident, sc->tls13HsWriteKey, sc->tls13HsWriteIv, 0, inner, 3, 23, al); }
+                else { al[0] = 21; al[1] = 3; al[2] = 3; al[3] = 0; al[4] = 2; al[5] = (unsigned char) s->lvl; al[6] = (unsigned char) s->desc; an = 7; }
+                st_put(d, al, an, needv, 1);
+                SH->muted[d] = 1; p = ts->outlen; break;
+            }
+            /* RFC 8446 section 5: CCS may arrive at any time after the first ClientHello and before the peer's Finished */
+            if (k >= 1 && (d == 0 ? p < snd->hs_end : !snd->sentApp)) ccs_position(s, d, k, needv);
+        }
+        st_put(d, ts->out + p, r.hdr + r.len, needv, 0); p += r.hdr + r.len;
+        if (s->ver == MX_TLS13 && k == 0 && p == ts->outlen) ccs_position(s, d, -1, needv);   /* behind a lone first ClientHello / HelloRetryRequest */
+    }
+    while (snd->spdone < snd->nsp && snd->sp[snd->spdone].off <= p) { st_put(d, snd->sp[snd->spdone].b, snd->sp[snd->spdone].len, needv, 1); snd->spdone++; }
+    *pos = ts->outlen;
+    if (SH->len[d] > from) drv_feed(rcv, SH->stream[d] + from, SH->len[d] - from, 0);
+}
+
 static void record_run(void *a_)
 {
     const scn_t *s = a_; sslSessionId_t *sid; matrixSslNewSessionId(&sid, NULL);
-    drv_t C, S; trace_t *tc = &SH->ref[0], *ts = &SH->ref[1];
-    if (s->resumed) {   /* priming connection inside this child: identical in every child because entropy is pinned */
-        mx_cfg c = { .ver = s->ver, .suite = s->suite, .useTicket = s->ticket }; mx_conn k;
-        if (mx_conn_open(&k, &c, sid) == 0) { mx_conn_run(&k, NULL, NULL, 300); } mx_conn_close(&k);
-    }
+    static drv_t C, S; trace_t *tc = &SH->ref[0], *ts = &SH->ref[1];
+    if (s->resumed) prime(s, sid);
     if (drv_open(&S, s, MX_SERVER, NULL, ts) < 0 || drv_open(&C, s, MX_CLIENT, sid, tc) < 0) return;
-    int posC = 0, posS = 0;   /* how much of each endpoint's output has been delivered to the other */
+    int posC = 0, posS = 0, rixC = 0, rixS = 0;   /* how much of each endpoint's output has been delivered to the other; records seen per direction */
     for (int round = 0; round < 40; round++) {
+        int c0 = posC, s0 = posS;
+        drv_drain(&C); link_move(s, 0, &C, &S, &posC, &rixC);
+        drv_drain(&S); link_move(s, 1, &S, &C, &posS, &rixS);
         drv_drain(&C);
-        if (tc->outlen > posC) { for (int i = posC; i < tc->outlen; i++) SH->need[0][i] = ts->outlen; drv_feed(&S, tc->out + posC, tc->outlen - posC, 0); posC = tc->outlen; }
-        drv_drain(&S);
-        if (ts->outlen > posS) { for (int i = posS; i < ts->outlen; i++) SH->need[1][i] = tc->outlen; drv_feed(&C, ts->out + posS, ts->outlen - posS, 0); posS = ts->outlen; }
-        drv_drain(&C);
-        if (tc->outlen == posC && ts->outlen == posS) break;
+        if (tc->outlen == posC && ts->outlen == posS && c0 == posC && s0 == posS) break;
     }
-    SH->len[0] = tc->outlen; SH->len[1] = ts->outlen; memcpy(SH->stream[0], tc->out, tc->outlen); memcpy(SH->stream[1], ts->out, ts->outlen);
     SH->established = C.sentApp && S.sentApp;
     SH->ok = 1;
 }
 
 /* chunkers */
-enum { CH_FLIGHT = 0, CH_FIXED, CH_RECALIGN, CH_STRADDLE, CH_COALESCE, CH_RANDOM };
+enum { CH_FLIGHT = 0, CH_FIXED, CH_RECALIGN, CH_STRADDLE, CH_COALESCE, CH_RANDOM, CH_INSCUT_A, CH_INSCUT_B, CH_INSTRICKLE };
 typedef struct { const scn_t *s; int role; int kind, arg, partial; } alone_arg;
 static const char *chunk_class(const alone_arg *a)
 {
     if (a->partial) return a->partial == 1 ? "partial-send-1" : a->partial == 2 ? "partial-send-n-1" : "partial-send-random";
     switch (a->kind) { case CH_FLIGHT: return "flight"; case CH_FIXED: return a->arg == 1 ? "byte-at-a-time" : a->arg == 5 ? "header-size" : a->arg < 10 ? "tiny-fixed" : "fixed"; case CH_RECALIGN: return "record-aligned";
-                       case CH_STRADDLE: return "record-straddling"; case CH_COALESCE: return "coalesced"; default: return "random"; }
+                       case CH_STRADDLE: return "record-straddling"; case CH_COALESCE: return "coalesced"; case CH_INSCUT_A: case CH_INSCUT_B: return "cut-at-spliced-record"; case CH_INSTRICKLE: return "trickle-behind-spliced-record";
+                       default: return "random"; }
 }
 static void alone_run(void *a_)
 {
     alone_arg *a = a_; const scn_t *s = a->s; sslSessionId_t *sid; matrixSslNewSessionId(&sid, NULL);
-    drv_t D; trace_t *t = &SH->alone; int dirIn = a->role == MX_SERVER ? 0 : 1;
+    static drv_t D; trace_t *t = &SH->alone; int dirIn = a->role == MX_SERVER ? 0 : 1;
     const unsigned char *in = SH->stream[dirIn]; int inlen = SH->len[dirIn]; const int *need = SH->need[dirIn];
-    if (s->resumed) { mx_cfg c = { .ver = s->ver, .suite = s->suite, .useTicket = s->ticket }; mx_conn k; if (mx_conn_open(&k, &c, sid) == 0) { mx_conn_run(&k, NULL, NULL, 300); } mx_conn_close(&k); }
+    const grp_t *ins = SH->ins[dirIn]; int nins = SH->nins[dirIn];
+    if (s->resumed) prime(s, sid);
     /* keep object creation order identical to the recording run (server first) so that entropy draws line up */
-    drv_t other; trace_t ot;
+    static drv_t other; static trace_t ot;
     if (a->role == MX_SERVER) { if (drv_open(&D, s, MX_SERVER, NULL, t) < 0) return; }
     else { if (drv_open(&other, s, MX_SERVER, NULL, &ot) < 0) return; if (drv_open(&D, s, MX_CLIENT, sid, t) < 0) return; }
     D.partial = a->partial; vf_rng_init(&D.rng, vf_seed, a->arg * 7 + a->kind); vf_rng g; vf_rng_init(&g, vf_seed * 3 + 1, a->arg * 13 + a->kind);
-    int pos = 0;
+    /* record table of the input stream */
+    static int rs[4096]; int nr = 0; { int o = 0; mx_rec r; while (nr < 4095 && mx_rec_at(in, inlen, o, 0, &r)) { rs[nr++] = o; o += r.hdr + r.len; } rs[nr] = o; }
+    int pos = 0, ri = 0;
     for (int guard = 0; guard < 2000000; guard++) {
         drv_drain(&D);
         /* idle point: everything sent, waiting for input.  A completed handshake must have been made known by now */
@@ -177,15 +363,31 @@ static void alone_run(void *a_)
         if (pos >= inlen || D.e.dead || (D.e.ssl->flags & SSL_FLAGS_ERROR)) break;
         int lim = pos; while (lim < inlen && need[lim] <= t->outlen) lim++;
         if (lim == pos) { t->stuck = 1; break; }    /* the endpoint has emitted less than in the recording: next bytes may not be delivered yet */
-        int n = lim - pos, coal = 0; mx_rec r;
+        int n = lim - pos, coal = 0;
+        while (ri + 1 < nr && rs[ri + 1] <= pos) ri++;   /* record containing pos */
+        int rstart = rs[ri], rend = ri < nr ? rs[ri + 1] : inlen;
         switch (a->kind) {
         case CH_FLIGHT: break;
         case CH_FIXED: if (n > a->arg) n = a->arg; break;
-        case CH_RECALIGN: if (mx_rec_at(in, inlen, pos, 0, &r) && r.hdr + r.len <= n) n = r.hdr + r.len; break;
-        case CH_STRADDLE: { /* split inside the header / around the boundary of the current record: arg selects the offset */
-            if (mx_rec_at(in, inlen, pos, 0, &r)) { int full = r.hdr + r.len; int cut = a->arg <= 5 ? a->arg : a->arg == 6 ? full - 1 : full + 1; if (cut < 1) cut = 1; if (cut < n) n = cut; } break; }
+        case CH_RECALIGN: if (rend > pos && rend - pos < n) n = rend - pos; break;
+        case CH_STRADDLE: { /* from a record start: split inside the header (1..5), one byte before / behind the end of the record (6, 7); from inside a record: up to its end */
+            int full = rend - rstart, cut = pos != rstart ? rend - pos : a->arg <= 5 ? a->arg : a->arg == 6 ? full - 1 : full + 1;
+            if (cut < 1) cut = 1;
+            if (cut < n) n = cut;
+            break; }
         case CH_COALESCE: coal = 1; break;
         case CH_RANDOM: n = 1 + (int) vf_below(&g, n > 3000 ? 3000 : n); break;
+        case CH_INSCUT_A: case CH_INSCUT_B:   /* whole flights, but one cut at a fixed distance from the start / the end of every spliced group */
+            for (int i = 0; i < nins; i++) { int c = (a->kind == CH_INSCUT_A ? ins[i].a : ins[i].b) + a->arg; if (c > pos && c < pos + n) n = c - pos; }
+            break;
+        case CH_INSTRICKLE: { /* everything up to arg bytes behind a spliced group in one call, then the record behind the group in pieces of 1 (partial 0) .. */
+            int step = 1 + a->arg / 100, k = a->arg % 100;
+            for (int i = 0; i < nins; i++) {
+                int c = ins[i].b + k, e = ins[i].b, j = 0; while (j < nr && rs[j] < ins[i].b) j++; e = j < nr ? rs[j + 1] : inlen;   /* end of the record that follows the group */
+                if (c > pos && c < pos + n) n = c - pos;
+                else if (pos >= c && pos < e && step < n) n = step;
+            }
+            break; }
         }
         drv_feed(&D, in + pos, n, coal); pos += n;
     }
@@ -201,36 +403,60 @@ static int run_child(void (*fn)(void *), void *arg, const char *desc)
 }
 static void report(const scn_t *s, const alone_arg *a, const char *what, const char *desc, const char *fmt, ...)
 {
-    char key[200], msg[800]; va_list ap; va_start(ap, fmt); vsnprintf(msg, sizeof msg, fmt, ap); va_end(ap);
-    snprintf(key, sizeof key, "c18:%s:%s:%s:%s", what, mx_vername[s->ver], a->role ? "server" : "client", chunk_class(a));
+    char key[240], msg[800]; va_list ap; va_start(ap, fmt); vsnprintf(msg, sizeof msg, fmt, ap); va_end(ap);
+    if (aug_class(s)) snprintf(key, sizeof key, "c18:%s:%s:%s:%s:%s", what, mx_vername[s->ver], a->role ? "server" : "client", aug_class(s), chunk_class(a));
+    else snprintf(key, sizeof key, "c18:%s:%s:%s:%s", what, mx_vername[s->ver], a->role ? "server" : "client", chunk_class(a));
     vf_violation(key, desc, "%s | scenario=%s", msg, s->name);
 }
 static void evstr(const trace_t *t, char *o, size_t cap) { size_t n = 0; o[0] = 0; for (int i = 0; i < t->nev && n + 26 < cap; i++) n += snprintf(o + n, cap - n, "%s%s", i ? "," : "", t->ev[i]); }
+static void dump_stream(int d)
+{
+    int o = 0, k = 0; mx_rec r; fprintf(stderr, "stream %s (%d bytes):", d ? "s->c" : "c->s", SH->len[d]);
+    while (mx_rec_at(SH->stream[d], SH->len[d], o, 0, &r)) { int sp = 0; for (int i = 0; i < SH->nins[d]; i++) if (o >= SH->ins[d][i].a && o < SH->ins[d][i].b) sp = 1; fprintf(stderr, " %s[%d:t%d:%d@%d need%d]", sp ? "*" : "", k++, r.type, r.len, o, SH->need[d][o]); o += r.hdr + r.len; }
+    fprintf(stderr, "\n");
+}
 
 int main(int argc, char **argv)
 {
     vf_init(argc, argv); if (vf_flag("-vv")) vf_verbose = 2; mx_global_init(); mx_keys_load();
     SH = mmap(NULL, sizeof *SH, PROT_READ | PROT_WRITE, MAP_SHARED | MAP_ANONYMOUS, -1, 0);
     build_scenarios();
-    long idx = 0; static trace_t ref;
+    long idx = 0, lightidx = 0; static trace_t ref;
     for (int si = 0; si < nscn; si++) {
-        const scn_t *s = &scns[si]; char desc[200];
-        if (vf_case) { int want = -1; sscanf(vf_case, "scn=%d", &want); if (want != si) continue; }
+        const scn_t *s = &scns[si]; char desc[260], sname[100];
+        snprintf(sname, sizeof sname, "%s/%s", mx_vername[s->ver], s->name);
+        if (vf_case) { char want[100] = ""; sscanf(vf_case, "scn=%99s", want); if (strcmp(want, sname)) continue; }
+        /* scenarios with small payloads are cheap: one shard takes all their re-runs, so that the recording is not repeated in every shard */
+        int whole = s->light && !vf_case, mine_all = 1;
+        if (whole) mine_all = vf_mine(lightidx++);
+        if (whole && !mine_all) continue;
         mx_entropy_seed(vf_seed * 1009 + si);
-        snprintf(desc, sizeof desc, "scn=%d record", si);
-        if (!run_child(record_run, (void *) s, desc)) { vf_incon("recording run failed for %s/%s", mx_vername[s->ver], s->name); continue; }
-        if (s->bad == BAD_NONE && !SH->established) { vf_incon("recording run of %s/%s did not establish", mx_vername[s->ver], s->name); continue; }
-        if (vf_shard == 0) { vf_stat("scenarios", 1); vf_stat("stream_bytes", SH->len[0] + SH->len[1]); }
+        memset(SH->len, 0, sizeof SH->len); memset(SH->nins, 0, sizeof SH->nins); memset(SH->npos, 0, sizeof SH->npos); memset(SH->nccs, 0, sizeof SH->nccs); memset(SH->muted, 0, sizeof SH->muted); SH->applied = 0; SH->established = 0;
+        snprintf(desc, sizeof desc, "scn=%s record", sname);
+        if (!run_child(record_run, (void *) s, desc)) { vf_incon("recording run failed for %s", sname); continue; }
+        if (s->aug == AUG_CCS_ONE && !SH->applied) { vf_stat("ccs_position_absent", 1); continue; }   /* the ordinal is beyond the last legal position of this scenario */
+        if (s->aug && !SH->applied) { vf_incon("nothing was spliced into %s", sname); continue; }
+        if (s->aug == AUG_CCS_ALL && (SH->npos[0] > MAXORD_C || SH->npos[1] > MAXORD_S)) vf_incon("%s has %d/%d legal CCS positions: more than the single-position scenarios enumerate", sname, SH->npos[0], SH->npos[1]);
+        /* A spliced stream that does not establish flight-at-a-time is not judged here: the partitions below are (a partition that does
+           establish disagrees with the reference); if none disagrees, the scenario said nothing */
+        int unestablished = s->bad == BAD_NONE && s->aug != AUG_ABORT && !SH->established; long viol0 = vf_nviol;
+        if (unestablished && !s->aug) { vf_incon("recording run of %s did not establish", sname); continue; }
+        if (vf_verbose) { dump_stream(0); dump_stream(1); }
+        if (vf_shard == 0 || whole) {
+            vf_stat("scenarios", 1); vf_stat("stream_bytes", SH->len[0] + SH->len[1]);
+            if (s->aug) { vf_stat("scenarios_augmented", 1); vf_statf(1, "scenarios_%s", aug_class(s)); vf_stat("spliced_ccs_records", SH->nccs[0] + SH->nccs[1]); vf_stat("spliced_groups", SH->nins[0] + SH->nins[1]); }
+        }
         for (int role = 0; role < 2; role++) {
+            if (!(s->roles & (1 << role))) continue;
+            int dirIn = role == MX_SERVER ? 0 : 1, nins = SH->nins[dirIn], maxg = 0; for (int i = 0; i < nins; i++) if (SH->ins[dirIn][i].b - SH->ins[dirIn][i].a > maxg) maxg = SH->ins[dirIn][i].b - SH->ins[dirIn][i].a;
             /* reference: the endpoint alone, flight at a time; must reproduce what it did in the recording */
             alone_arg ra = { s, role, CH_FLIGHT, 0, 0 };
-            snprintf(desc, sizeof desc, "scn=%d role=%d kind=%d arg=%d partial=%d", si, role, ra.kind, ra.arg, ra.partial);
-            if (vf_case && 0) ;
-            if (!run_child(alone_run, &ra, desc)) { vf_incon("reference alone run failed %s/%s role %d", mx_vername[s->ver], s->name, role); continue; }
+            snprintf(desc, sizeof desc, "scn=%s role=%d kind=%d arg=%d partial=%d", sname, role, ra.kind, ra.arg, ra.partial);
+            if (!run_child(alone_run, &ra, desc)) { vf_incon("reference alone run failed %s role %d", sname, role); continue; }
             memcpy(&ref, &SH->alone, sizeof ref);
-            if (ref.outlen != SH->ref[role].outlen || memcmp(ref.out, SH->ref[role].out, ref.outlen)) { vf_incon("alone reference run of %s/%s role %d is not reproducible (%d vs %d output bytes): determinism not achieved", mx_vername[s->ver], s->name, role, ref.outlen, SH->ref[role].outlen); continue; }
+            if (ref.outlen != SH->ref[role].outlen || memcmp(ref.out, SH->ref[role].out, ref.outlen)) { vf_incon("alone reference run of %s role %d is not reproducible (%d vs %d output bytes): determinism not achieved", sname, role, ref.outlen, SH->ref[role].outlen); continue; }
             /* the variants */
-            alone_arg v[200]; int nv = 0;
+            static alone_arg v[400]; int nv = 0;
             static const int fx_q[] = { 1, 2, 3, 4, 5, 6, 7, 8, 9, 13, 16, 64, 511, 1000 };
             for (int i = 0; i < 14; i++) v[nv++] = (alone_arg) { s, role, CH_FIXED, fx_q[i], 0 };
             if (vf_thorough) for (int f = 10; f < 60; f++) v[nv++] = (alone_arg) { s, role, CH_FIXED, f, 0 };
@@ -239,16 +465,22 @@ int main(int argc, char **argv)
             v[nv++] = (alone_arg) { s, role, CH_COALESCE, 0, 0 };
             for (int r = 0; r < (vf_thorough ? 40 : 6); r++) v[nv++] = (alone_arg) { s, role, CH_RANDOM, r, 0 };
             for (int p = 1; p <= 3; p++) { v[nv++] = (alone_arg) { s, role, CH_FLIGHT, 0, p }; v[nv++] = (alone_arg) { s, role, CH_FIXED, 7, p }; v[nv++] = (alone_arg) { s, role, CH_RANDOM, 50 + p, p }; }
+            if (nins) {   /* every split point around the spliced records */
+                for (int k = -2; k <= (maxg < 14 ? maxg + 2 : 8); k++) if (k) v[nv++] = (alone_arg) { s, role, CH_INSCUT_A, k, 0 };
+                for (int k = -2; k <= 8; k++) if (k) v[nv++] = (alone_arg) { s, role, CH_INSCUT_B, k, 0 };
+                static const int tk[] = { 1, 2, 4, 5, 6, 9 };
+                for (int i = 0; i < 6; i++) for (int st = 1; st <= 3; st += 2) v[nv++] = (alone_arg) { s, role, CH_INSTRICKLE, (st - 1) * 100 + tk[i], 0 };
+            }
             for (int vi = 0; vi < nv; vi++) {
-                if (!vf_mine(idx++)) continue;
+                if (whole ? !mine_all : !vf_mine(idx++)) continue;
                 alone_arg *a = &v[vi];
-                snprintf(desc, sizeof desc, "scn=%d role=%d kind=%d arg=%d partial=%d", si, role, a->kind, a->arg, a->partial);
+                snprintf(desc, sizeof desc, "scn=%s role=%d kind=%d arg=%d partial=%d", sname, role, a->kind, a->arg, a->partial);
                 if (vf_case && strcmp(vf_case, desc)) continue;
-                vf_stat("cases", 1);
+                vf_stat("cases", 1); if (s->aug) vf_stat("cases_augmented", 1);
                 if (!run_child(alone_run, a, desc)) continue;    /* crash/hang already recorded */
                 trace_t *t = &SH->alone; char e1[700], e2[700]; evstr(&ref, e1, sizeof e1); evstr(t, e2, sizeof e2);
-                vf_distinct("%d|%d|%d|%d|%d", si, role, a->kind, a->arg, a->partial);
-                if (vi == 4 || vi == 16) vf_sample("%s/%s %s chunking=%s(%d) partial=%d: %d bytes in, %d out, events %s", mx_vername[s->ver], s->name, role ? "server" : "client", chunk_class(a), a->arg, a->partial, t->fed, t->outlen, e2);
+                vf_distinct("%s|%d|%d|%d|%d", sname, role, a->kind, a->arg, a->partial);
+                if (vi == 4 || vi == 16) vf_sample("%s %s chunking=%s(%d) partial=%d: %d bytes in, %d out, events %s", sname, role ? "server" : "client", chunk_class(a), a->arg, a->partial, t->fed, t->outlen, e2);
                 if (vf_verbose) { fprintf(stderr, "REF  events %s out=%d got=%d reqclose=%d\nTHIS events %s out=%d got=%d reqclose=%d stuck=%d\n", e1, ref.outlen, ref.gotlen, ref.reqclose_on_send, e2, t->outlen, t->gotlen, t->reqclose_on_send, t->stuck);
                     int d0 = 0; while (d0 < t->outlen && d0 < ref.outlen && t->out[d0] == ref.out[d0]) d0++; fprintf(stderr, "first diff at %d; this tail:", d0); for (int i = d0; i < t->outlen && i < d0 + 40; i++) fprintf(stderr, " %02x", t->out[i]); fprintf(stderr, "\n"); }
                 if (strcmp(e1, e2)) report(s, a, "events-differ", desc, "events [%s] vs reference [%s]", e2, e1);
@@ -262,6 +494,7 @@ int main(int argc, char **argv)
                 else { vf_stat("traces_equal", 1); if (t->hsc_recv + t->hsc_send != ref.hsc_recv + ref.hsc_send) vf_stat("completion_code_coalesced_with_appdata", 1); }
             }
         }
+        if (unestablished && vf_nviol == viol0 && !vf_case) vf_incon("recording run of %s did not establish, and no partition behaved differently", sname);
     }
     mx_keys_free(); matrixSslClose();
     vf_flush();
